@@ -62,14 +62,15 @@ def create_linked_view(project, prefix=None, job_ids=None, path=None):
     bad_items = [
         item
         for item in item_list
-        if isinstance(item, str) and (os.sep in item or item in (os.curdir, os.pardir))
+        if isinstance(item, str)
+        and (os.sep in item or item in ("", os.curdir, os.pardir))
     ]
 
-    if any(bad_items):
+    if bad_items:
         err_msg = " ".join(
             [
                 f"In order to use view, state points should not contain {os.sep}"
-                f" or be equal to {os.curdir} or {os.pardir}:",
+                f" or be empty or equal to {os.curdir} or {os.pardir}:",
                 str(set(bad_items)),
             ]
         )
